@@ -3127,4 +3127,153 @@ theorem accepts_iff_51A (s : Text) : (F51A.parse s).isOk = true ↔ Doc.F51A s :
       | ok bic => rfl
       | err => rw [hpb] at hok; cases hok
       | panic => rw [hpb] at hok; cases hok
+
+/-- 59A `[/34x]` + BIC, both directions: accepted exactly when it is a BIC, or an account line and a BIC -/
+theorem accepts_iff_59A (s : Text) :
+    (F59A.parse s).isOk = true ↔ (Doc.Bic s ∨ ∃ l b, s = l ++ '\n' :: b ∧ Doc.AccountLine l ∧ Doc.Bic b) := by
+  refine ⟨fun h => ?_, accepts_59A_of_doc s⟩
+  unfold F59A.parse at h
+  have hj := joinNl_splitNl s
+  split at h
+  · cases h
+  · rename_i l0 rest hsp
+    rw [hsp] at hj
+    split at h
+    · rename_i acc hacc
+      split at h
+      · cases h
+      · rename_i b rest'
+        split at h
+        · rename_i bic hb
+          split at h
+          · rename_i hre
+            have hr' : rest' = [] := by simpa using hre
+            subst hr'
+            right
+            exact ⟨l0, b, by rw [← hj]; rfl, (acctLenient_some_iff l0).mp ⟨acc, hacc⟩, (accepts_iff_bic b).mp (by rw [hb]; rfl)⟩
+          · cases h
+        · cases h
+        · cases h
+    · split at h
+      · rename_i bic hb
+        split at h
+        · rename_i hre
+          have hr' : rest = [] := by simpa using hre
+          subst hr'
+          left
+          have : s = l0 := by rw [← hj]; rfl
+          rw [this]; exact (accepts_iff_bic l0).mp (by rw [hb]; rfl)
+        · cases h
+      · cases h
+      · cases h
+    · cases h
+    · cases h
+
+/-- when the first line of 59 is not read as an account -/
+theorem acctLenient_none_iff (l : Text) :
+    acctLenient l = .ok none ↔ (l.head? ≠ some '/' ∨ ∃ id, l = '/' :: id ∧ blen id > 34) := by
+  unfold acctLenient
+  constructor
+  · intro h
+    split at h
+    · rename_i id
+      split at h; · cases h
+      split at h
+      · split at h <;> cases h
+      · rename_i hl; exact Or.inr ⟨id, rfl, by omega⟩
+    · rename_i hns
+      left
+      cases l with
+      | nil => simp
+      | cons c r => simp only [List.head?_cons, ne_eq, Option.some.injEq]; intro hc; subst hc; exact hns r rfl
+  · rintro (h | ⟨id, rfl, hl⟩)
+    · split
+      · simp at h
+      · rfl
+    · have hne : id.isEmpty = false := by cases id with | nil => simp [blen] at hl | cons _ _ => rfl
+      have : ¬ blen id ≤ 34 := by omega
+      simp [hne, this]
+
+/-- 59 `[/34x]` + `4*35x` over the lines of the content: an account line and 1 to 4 name lines, or 1 to 4 name lines of
+which the first has no leading slash (a slash-led first line is an account line or nothing: 36 characters are no name line) -/
+def Doc.F59Lines (l0 : Text) (rest : List Text) : Prop :=
+  (Doc.AccountLine l0 ∧ Doc.NameLines rest) ∨
+  (Doc.NameLines (l0 :: rest) ∧ l0.head? ≠ some '/')
+
+/-- 59, both directions -/
+theorem accepts_iff_59 (s : Text) :
+    (F59.parse s).isOk = true ↔ ∃ l0 rest, splitNl s = l0 :: rest ∧ Doc.F59Lines l0 rest := by
+  unfold F59.parse
+  have hnn := splitNl_ne_nil s
+  cases hsp : splitNl s with
+  | nil => exact absurd hsp hnn
+  | cons l0 rest =>
+    have hex : (∃ a b, l0 :: rest = a :: b ∧ Doc.F59Lines a b) ↔ Doc.F59Lines l0 rest :=
+      ⟨fun ⟨a, b, he, hq⟩ => by cases he; exact hq, fun hq => ⟨l0, rest, rfl, hq⟩⟩
+    rw [hex]
+    unfold Doc.F59Lines
+    cases hacc : acctLenient l0 with
+    | ok o =>
+      cases o with
+      | some acc =>
+        have hal := (acctLenient_some_iff l0).mp ⟨acc, hacc⟩
+        simp only [hacc]
+        refine Iff.trans (b := Doc.NameLines rest) ?_ ?_
+        · rw [← nameAddr_accepts_iff rest]
+          cases parseNameAndAddress rest 0 <;> simp [Res.isOk]
+        · constructor
+          · intro h; exact Or.inl ⟨hal, h⟩
+          · rintro (⟨_, h⟩ | ⟨hn, hh⟩)
+            · exact h
+            · exfalso
+              obtain ⟨a, rfl, ha⟩ := hal
+              simp at hh
+      | none =>
+        simp only [hacc]
+        refine Iff.trans (b := Doc.NameLines (l0 :: rest)) ?_ ?_
+        · rw [← nameAddr_accepts_iff (l0 :: rest)]
+          cases parseNameAndAddress (l0 :: rest) 0 <;> simp [Res.isOk]
+        · constructor
+          · intro hn
+            right
+            refine ⟨hn, ?_⟩
+            rcases (acctLenient_none_iff l0).mp hacc with h | ⟨id, rfl, hl⟩
+            · exact h
+            · exfalso
+              have hx := hn.2.2 _ (List.mem_cons_self)
+              obtain ⟨c1, c2, c3⟩ := checks_of_xtext 35 _ hx
+              have hasc := all_swiftX_ascii _ c3
+              have hida : isAsciiT id = true := by unfold isAsciiT at *; simp only [List.all_cons, Bool.and_eq_true] at hasc; exact hasc.2
+              have := blen_ascii id hida
+              have := hx.2.1
+              simp at this; omega
+          · rintro (⟨hal, _⟩ | ⟨hn, _⟩)
+            · obtain ⟨a, ha⟩ := (acctLenient_some_iff l0).mpr hal
+              rw [ha] at hacc; cases hacc
+            · exact hn
+    | err =>
+      simp only [hacc, Res.isOk, Bool.false_eq_true, false_iff, not_or, not_and]
+      refine ⟨fun hal => ?_, fun hn => ?_⟩
+      · obtain ⟨a, ha⟩ := (acctLenient_some_iff l0).mpr hal
+        rw [ha] at hacc; cases hacc
+      · have hx := hn.2.2 _ (List.mem_cons_self)
+        obtain ⟨c1, c2, c3⟩ := checks_of_xtext 35 _ hx
+        unfold acctLenient at hacc
+        split at hacc
+        · rename_i id
+          simp only [List.all_cons, Bool.and_eq_true] at c3
+          split at hacc
+          · rename_i he
+            have : id = [] := by simpa using he
+            subst this; simp
+          · split at hacc
+            · rename_i hl
+              simp [c3.2] at hacc
+            · cases hacc
+        · cases hacc
+    | panic =>
+      exfalso
+      unfold acctLenient at hacc
+      repeat' split at hacc
+      all_goals cases hacc
 end SwiftMT.Props.C05
